@@ -25,12 +25,19 @@ type Interp struct {
 
 	// per-harness configuration
 	cfg      harnessCfg
+	curSite  ssa.Instruction
+	splitDepth int
+	frontier [][]decision
+	base     int
+	prof     map[string]int
 	cfg0name string
 	tier     string
 	vsymFn   map[*ssa.Function]bool
 
 	// per-path state
 	pc        []*Term
+	pcSet     map[*Term]bool
+	implied   map[*Term]implEnt
 	path      []decision
 	pos       int
 	model     map[string]uint64
@@ -710,6 +717,7 @@ func (in *Interp) visitInstr(fr *frame, instr ssa.Instruction) continuation {
 
 	case *ssa.If:
 		succ := 1
+		in.curSite = instr
 		if in.truth(fr.get(instr.Cond)) {
 			succ = 0
 		}
@@ -833,6 +841,9 @@ func (in *Interp) visitInstr(fr *frame, instr ssa.Instruction) continuation {
 			panic(fmt.Sprintf("unexpected x type in IndexAddr: %T", x))
 		}
 		i, sym := in.indexOf(idx, instr.Index.Type(), len(elems))
+		if sym != nil && len(elems) <= in.cfg.forkIndexBelow {
+			i, sym = in.concretize(sym, len(elems)), nil
+		}
 		if sym == nil {
 			fr.set(instr, &elems[i])
 		} else {
